@@ -5,10 +5,11 @@
 // real receiveRoutine, harness-owned timeouts). It runs for a drawn number of timeouts and is stopped cleanly (so all
 // it logged is on disk); the crash is what it was logging at that instant - the first k bytes of a record, optionally
 // behind a whole unacknowledged one - appended to the head file. Then: restart, commit one or two more heights,
-// clean stop, and the C15 statement itself as oracle (pnode.CheckWALReadable: every record whose synced write was
-// acknowledged after the restart is returned by a fresh reader over the group, in order, which ends with EOF;
-// SearchForEndHeight finds every marker written), plus an independent witness: every signature the key released after
-// the restart (journalled by the signer wrapper) is in a vote or proposal the reader returns.
+// clean stop - one to four such crash/restart cycles on the same WAL directory - and the C15 statement itself as
+// oracle (pnode.CheckWALReadable: every record whose synced write was acknowledged in this or ANY EARLIER incarnation
+// is returned by a fresh reader over the group, in order, which ends with EOF; SearchForEndHeight finds every marker
+// written), plus an independent witness: every signature the key ever released (journalled by the signer wrapper) is
+// in a vote or proposal the reader returns.
 package c15
 
 import (
@@ -85,6 +86,12 @@ func TestNodeRestartAfterTornTail(t *testing.T) {
 		}
 		defer p.Cleanup()
 		n, crashed, err := pnode.Boot(p, -1)
+		// whatever happens, no incarnation may outlive the directory (the WAL group's own ticker would find it gone)
+		defer func() {
+			if n != nil {
+				n.Stop()
+			}
+		}()
 		if err != nil || crashed != nil {
 			t.Fatalf("VERIF-INFRA: first boot: %v %v", err, crashed)
 		}
@@ -92,6 +99,13 @@ func TestNodeRestartAfterTornTail(t *testing.T) {
 		hist := ""
 		stopAndCheck := func(n *pnode.PNode, when string, signedFrom int) {
 			n.Stop()
+			// the receive routine stops the WAL (flush, sync, close) on its way out; pnode waits 5 s for that, which a
+			// badly loaded machine can exceed - and the crash bytes must not be appended before the log is closed
+			select {
+			case <-n.CS.VerifDone():
+			case <-time.After(3 * time.Minute):
+				t.Fatalf("VERIF-INFRA: the stopped node's receive routine did not finish within 3 minutes")
+			}
 			if v := pnode.CheckWALReadable(n); v != "" {
 				t.Fatalf("C15 violated %s: %s\nhistory: %s\nnode log: %v", when, v, hist, n.Errors())
 			}
@@ -99,7 +113,9 @@ func TestNodeRestartAfterTornTail(t *testing.T) {
 			if term != io.EOF {
 				t.Fatalf("C15 violated %s: a reader over the WAL ends with %v after %d records\nhistory: %s", when, term, nrec, hist)
 			}
-			for _, r := range p.SignLog[signedFrom:] {
+			// every signature released so far, in this or an earlier incarnation ("any later reader")
+			_ = signedFrom
+			for _, r := range p.SignLog {
 				if !sigs[string(r.Sig)] {
 					t.Fatalf("C15 violated %s: the node signed %v and logged it before sending (WriteSync), but no reader returns it (%d records readable)\nhistory: %s\nnode log: %v",
 						when, r, nrec, hist, n.Errors())
@@ -116,7 +132,7 @@ func TestNodeRestartAfterTornTail(t *testing.T) {
 		hist += fmt.Sprintf("run %d timeouts -> height %d; ", fires, n.BlockStore.Height())
 		stopAndCheck(n, "after the first clean stop", 0)
 
-		cycles := rapid.IntRange(1, 2).Draw(t, "cycles")
+		cycles := rapid.SampledFrom([]int{1, 2, 2, 3, 3, 4}).Draw(t, "cycles")
 		ackedAfterTorn := 0
 		repaired := 0
 		for c := 0; c < cycles; c++ {
